@@ -1,14 +1,14 @@
 SPECIFICATION Spec
 CONSTANTS
- Kind = "fub"
+ Kind = "mb"
  Cap0 = 2
- NInit = 0
+ NInit = 2
  NC = 3
  Budget = 2
  NW = 2
- MaxPolls = 2
+ MaxPolls = 3
  MaxItems = 1
- MaxWakes = 2
+ MaxWakes = 1
  GenMode = FALSE
  CursorFix = FALSE
  AllowFront = FALSE
